@@ -22,11 +22,7 @@ NOT_DECIDED = ["constants of the linear bound", "the tree printers (not claimed 
 
 # (class or module, function) -> reason.  Cycles entirely inside this set are accepted.
 JUSTIFIED = {
-    (FM, "_MinWrap"): "recursion on list halves: depth log(arity), not formula nesting",
-    (FM, "_MaxWrap"): "recursion on list halves: depth log(arity), not formula nesting",
-    (FM, "_do_type_check"): "one-shot trampoline: rebinds itself to _do_type_check_real, then calls that",
     (FNODE, "is_constant"): "an array value is constant iff its children are: children of ARRAY_VALUE are constants or array values, depth bounded by sort nesting",
-    ("pysmt.oracles.TheoryOracle", "_theory_from_type"): "recursion on sort nesting (array index/element sorts)",
 }
 
 SCOPE_CLASSES = [FNODE, FM, DAG, "pysmt.walkers.identitydag.IdentityDagWalker",
@@ -48,6 +44,22 @@ def _receiver_is_child(call):
         return False
     r = norm(call.func.value)
     return any(mk in r for mk in CHILD_EXPR_MARKERS)
+
+
+def _args_from_children(f, call):
+    for a in list(call.args) + [k.value for k in call.keywords]:
+        t = norm(a)
+        if any(mk in t for mk in CHILD_EXPR_MARKERS):
+            return True
+        for nm in names_in(a):
+            for n in ast.walk(f):
+                if isinstance(n, ast.Assign) and any(isinstance(tg, ast.Name) and tg.id == nm for tg in n.targets) \
+                        and any(mk in norm(n.value) for mk in CHILD_EXPR_MARKERS):
+                    return True
+                if isinstance(n, (ast.For, ast.comprehension)) and nm in names_in(n.target) and \
+                        any(mk in norm(n.iter) for mk in CHILD_EXPR_MARKERS):
+                    return True
+    return False
 
 
 def _bounded_by_guard(f, call):
@@ -113,7 +125,11 @@ def run(ctx):
                     if r and r[0] == "class":
                         continue      # Base.m(self, ...) : explicit up-call
                     if isinstance(recv, ast.Name) and recv.id == "self":
-                        hits.append((c, "self"))
+                        # self.m(...) recurses over the formula only if an argument is (derived from) a child;
+                        # recursion on halves of a parameter list, on sorts, or a rebinding trampoline is not
+                        # recursion over the nesting of operators
+                        if _args_from_children(f, c):
+                            hits.append((c, "self"))
                     elif _receiver_is_child(c):
                         hits.append((c, "child"))
                     elif isinstance(recv, ast.Name) and recv.id not in ("self",):
